@@ -751,6 +751,25 @@ def check_c14(chk, tier):
                     " ".join(rec["args"]), json.dumps(inp)[:300], rec["obs"]["exit"], rec["obs"]["report_written"],
                     rec["obs"]["dirs"], json.dumps(rec["obs"]["sections"])[:300]))
     trace_validate(chk, "TV_Config", tpath, describe, env={"CATALOGUE": cpath}, timeout=1800)
+    # the whole run (Solstat.tla): options -> three walks -> report, on nested directories, with duplicate-free lists in
+    # any order, empty lists, a missing directory and a stale report; outcome = SolstatRun!Outcome
+    import system
+    srecs, wpath = system.run(chk, hb, sb, d, tier)
+    spath = os.path.join(d, "trace-system.ndjson")
+    vlib.write_ndjson(spath, srecs)
+    chk.evaluations += len(srecs)
+    chk.nontrivial += sum(1 for x in srecs if x["inp"]["toml"])
+
+    def describe_sys(rec, why):
+        inp = rec["inp"]
+        t = inp["toml"][0] if inp["toml"] else None
+        shape = "flag=%s:toml=%s" % (inp["flag"] or "-", "-" if not t else "%s/%d,%d,%d" % (
+            t["path"], len(t["vulnerabilities"]), len(t["optimizations"]), len(t["qa"])))
+        return ("system:%s:%s" % (why, shape),
+                "solstat %s (input %s, report before: %s): exit=%s changed=%s report=%s" % (
+                    " ".join(rec["args"]), json.dumps(inp)[:300], rec["rep0"], rec["obs"]["exit"], rec["obs"]["changed"],
+                    json.dumps(rec["obs"]["report"])[:300]))
+    trace_validate(chk, "TV_Solstat", spath, describe_sys, env={"WORLD": wpath}, timeout=1800)
     chk.exhaustive = True
     chk.rule = ("The catalogue of documented names is extracted from docs/identified-*.md and Solstat.toml in /repo at check "
                 "time. TLC runs the option-resolution machine over every input of the family (--path present/absent x --toml "
@@ -759,7 +778,12 @@ def check_c14(chk, tier):
                 "precedence; the real binary is run on each input in a scratch cwd with three witness directories whose file "
                 "names identify them and whose contents trigger all 30 patterns; exit status, report presence (also against a "
                 "stale sentinel report), directory identity and the sections read back are validated by TV_Config; the name "
-                "tables are checked directly for injectivity and coverage of the defaults. Non-trivial = runs with a toml.")
+                "tables are checked directly for injectivity and coverage of the defaults. Whole runs: TLC checks the run machine "
+                "Solstat.tla (options -> walk x 3 -> report) against SolstatRun!Outcome on a small world and prints every input "
+                "(4 --path values x 226 configurations x ./contracts present/absent x report absent/stale); the binary is run on "
+                "each (quick: a stride sample) over nested directories and TV_Solstat accepts a run iff exit status, touched "
+                "paths and the entries read back equal Outcome evaluated on the real catalogue and isolated per-file results. "
+                "Non-trivial = runs with a toml.")
     chk.assumptions = ["the witness contracts make every pattern report at least one line (checked: a missing section is reported as wrong-patterns)"]
 
 
